@@ -31,6 +31,12 @@ impl EventGen for SvgElement {
         &self,
         context: &mut TransformerContext,
     ) -> Result<(OutputList, Option<BoundingBox>)> {
+        #[cfg(feature = "verif")]
+        let _verif_guard = crate::verif::ElGuard::new(
+            &self.name,
+            &format!("{:?}", self.order_index),
+            self.src_line,
+        );
         context.inc_depth()?;
         let res = match self.name.as_str() {
             "loop" => LoopElement(self.clone()).generate_events(context),
@@ -340,8 +346,12 @@ impl EventGen for SpecsElement {
         }
         if let Some(inner_events) = self.0.inner_events(context) {
             context.in_specs = true;
+            #[cfg(feature = "verif")]
+            crate::verif::specs_flag(true);
             process_events(inner_events, context)?;
             context.in_specs = false;
+            #[cfg(feature = "verif")]
+            crate::verif::specs_flag(false);
         }
         Ok((OutputList::new(), None))
     }
@@ -482,6 +492,8 @@ fn process_tags(
     let remain = &mut Vec::new();
 
     while !tags.is_empty() && remain.len() != tags.len() {
+        #[cfg(feature = "verif")]
+        crate::verif::pass_begin(tags.len());
         for (idx, t) in &mut tags.iter_mut() {
             let idx = idx.clone();
             let el = if let Some(el) = t.get_element() {
@@ -493,6 +505,18 @@ fn process_tags(
                 None
             };
             let gen_result = t.generate_events(context);
+            #[cfg(feature = "verif")]
+            crate::verif::tag_result(
+                &format!("{:?}", idx),
+                el.is_some(),
+                gen_result.is_ok(),
+                context.in_specs,
+                gen_result
+                    .as_ref()
+                    .err()
+                    .map(crate::verif::err_kind)
+                    .unwrap_or(""),
+            );
             if !context.in_specs {
                 // if we *are* in a specs block, we don't care if there were errors;
                 // a specs entry may have insufficient context until reuse time.
@@ -519,6 +543,8 @@ fn process_tags(
                 }
             }
         }
+        #[cfg(feature = "verif")]
+        crate::verif::pass_end(remain.len(), tags.len() != remain.len());
         if tags.len() == remain.len() {
             return Err(SvgdxError::MultiError(element_errors));
         }
